@@ -19,6 +19,8 @@ CONSTANTS Users,               \* user names the client may try
           GssHonoursCallback,  \* FALSE = pinned tree: both GSS branches hard-wire AUTH_SUCCESSFUL
           BlobOmits,           \* "" | "sid" | "user" | "service" | "alg" | "key": field left out of the signed blob
           KeepsResultAfterBadSig,  \* TRUE = a failed verify_ssh_sig does not reset result
+          OnlyConstantsReject,    \* TRUE = _send_auth_result rejects on the two rejecting constants only: any other callback value grants
+          UnpinnedUser,           \* "" | a user name for which the mid-flight comparison does not fire ("anon": pin tested for truthiness)
           EmptyListPromotesPartial,  \* TRUE = "partial" with an empty get_allowed_auths() list is sent as full success
           ServiceRequestResets,   \* TRUE = accepting a (repeated) ssh-userauth SERVICE_REQUEST clears the pin and the failure counter
           PkOkCachesApproval,     \* TRUE = a signed request for the key just answered with PK_OK is not put to the application again
@@ -33,6 +35,10 @@ GssMethods == {"gssapi-with-mic", "gssapi-keyex"}
 \* methods: none password publickey keyboard-interactive gssapi-with-mic gssapi-keyex, "bogus" = any other name
 Services   == {"ssh-connection", "other"}
 Results    == {"ok", "partial", "fail"}
+\* "junk" = the callback returns something that is none of the three documented constants (None from a callback without
+\* an explicit return, an unknown int, a string, any object): not success, so it must never grant
+\* User names are abstract: "anon" stands for the EMPTY user name on the wire (legal, and falsy in Python) - a user like
+\* any other.  authUser = "" means that no request has named a user yet (AuthHandler.auth_username is None).
 SigKinds   == {"absent", "good", "alt_sid", "omit_sid", "alt_user", "alt_service", "alt_alg", "alt_key", "wrong_key", "corrupt",
                "label_other", "label_garbage"}
 MicKinds   == {"good", "alt_sid", "alt_user"}
@@ -66,10 +72,13 @@ UserRequests(u, sv) ==
   \cup {[Rq(u, sv, "keyboard-interactive") EXCEPT !.cb = c] : c \in Results \cup {"query"}}
   \cup {[Rq(u, sv, "gssapi-keyex") EXCEPT !.cb = c, !.mic = mc] : c \in Results, mc \in MicKinds}
   \cup {[Rq(u, sv, "gssapi-with-mic") EXCEPT !.mechs = p[1], !.mech_ok = p[2]] : p \in {<<1, TRUE>>, <<2, TRUE>>, <<1, FALSE>>}}
+  \cup {[Rq(u, sv, m) EXCEPT !.cb = "junk"] : m \in {"none", "bogus", "password", "keyboard-interactive", "gssapi-keyex"}}
+  \cup {[Rq(u, sv, "publickey") EXCEPT !.cb = "junk", !.sig = sg] : sg \in {"absent", "good"}}
 Continuations ==
        {[Blank EXCEPT !.k = "info_response", !.cb = c] : c \in Results \cup {"query"}}
   \cup {[Blank EXCEPT !.k = "gss_token", !.tok = t, !.cb = "ok"] : t \in Toks}
   \cup {[Blank EXCEPT !.k = "gss_mic", !.mic = mc, !.cb = c] : mc \in MicKinds, c \in Results}
+  \cup {[Blank EXCEPT !.k = "info_response", !.cb = "junk"], [Blank EXCEPT !.k = "gss_mic", !.cb = "junk"]}
   \cup {[Blank EXCEPT !.k = "rekey", !.tok = t] : t \in {"client", "server"}}     \* a complete key re-exchange, started by t
   \* SSH_MSG_SERVICE_REQUEST sent again in the middle of the dialogue (paramiko's classic client does so before every
   \* attempt): "ssh-userauth" is accepted again, any other service is refused
@@ -158,7 +167,9 @@ ReplyOf(res) == CASE res = "ok" -> "SUCCESS" [] res = "partial" -> "PARTIAL" [] 
 Counts(res) == res = "fail" \/ (PartialCounts /\ res = "partial")
 \* the list of methods that can continue (s.al) is copied into the reply and changes nothing else
 SendResult(s, c, res0) ==
-    LET res == IF EmptyListPromotesPartial /\ res0 = "partial" /\ s.al = "empty" THEN "ok" ELSE res0
+    LET res == IF EmptyListPromotesPartial /\ res0 = "partial" /\ s.al = "empty" THEN "ok"
+               ELSE IF res0 = "junk" THEN (IF OnlyConstantsReject THEN "ok" ELSE "fail")   \* not AUTH_SUCCESSFUL: plain failure
+               ELSE res0
         fc == IF Counts(res) THEN s.failCount + 1 ELSE s.failCount
         s1 == [s EXCEPT !.failCount = fc, !.authenticated = (s.authenticated \/ res = "ok")]
     IN  IF fc >= FailCap + CapOffset
@@ -173,7 +184,7 @@ EffMethod(c, q) == IF q.method \in GssMethods /\ ~c.gss THEN "bogus" ELSE q.meth
 UserauthRequest(c, s, q) ==
     IF s.authenticated THEN Quiet(s)                                          \* "ignore"
     ELSE IF q.service # "ssh-connection" THEN Die(s, <<>>, <<"DISCONNECT">>)  \* _disconnect_service_not_available
-    ELSE IF PinsUser /\ s.authUser # "" /\ s.authUser # q.user
+    ELSE IF PinsUser /\ s.authUser # "" /\ s.authUser # UnpinnedUser /\ s.authUser # q.user
       THEN Die(s, <<>>, <<"DISCONNECT">>)                                     \* _disconnect_no_more_auth
     ELSE
       LET s1 == [s EXCEPT !.authUser = q.user]
